@@ -294,3 +294,22 @@ Theorem C17_tags_from_source :
   model_tags = source_tags /\ length source_tags = length src_all_names /\ all_distinct src_all_names = true.
 Proof. exact (conj tags_from_source (conj tags_cover_source source_names_distinct)). Qed.
 Print Assumptions C17_tags_from_source.
+
+(* the text -> variant tables of parser/elem_type.rs (NameSpace, MergePriority, Visibility, AccessMode, CachingMode,
+   Integer / Float Representation, Slope, DisplayNotation, StandardNameSpace, Endianness, Sign), regenerated on every
+   run: the model's tables ARE the source's arms (texts, variants by name, order) *)
+Theorem C17_literal_tables_from_source :
+  with_names namespace_rust namespace_tbl = src_lit_NameSpace /\
+  with_names mergeprio_rust mergeprio_tbl = src_lit_MergePriority /\
+  with_names vis_rust vis_tbl = src_lit_Visibility /\
+  with_names access_rust access_tbl = src_lit_AccessMode /\
+  with_names caching_rust caching_tbl = src_lit_CachingMode /\
+  with_names irep_rust irep_tbl = src_lit_IntegerRepresentation /\
+  with_names frep_rust frep_tbl = src_lit_FloatRepresentation /\
+  with_names slope_rust slope_tbl = src_lit_Slope /\
+  with_names dnot_rust dnot_tbl = src_lit_DisplayNotation /\
+  with_names stdns_rust stdns_tbl = src_lit_StandardNameSpace /\
+  with_names endian_rust endian_tbl = src_lit_Endianness /\
+  with_names sign_rust sign_tbl = src_lit_Sign.
+Proof. exact literal_tables_from_source. Qed.
+Print Assumptions C17_literal_tables_from_source.
